@@ -148,6 +148,8 @@ def intruder(entry, a, variant, rng):
     other = entry.make(variant)
     other.set_params(**sub)
     X2, y2 = entry.data(rng)
+    if isinstance(X2, numpy.ndarray) and X2.dtype.kind == "f":
+        X2 = X2[::-1] * -2.0 + 7.0          # another relation between rows and targets: a model trained on it IS another model
     with warnings.catch_warnings():
         warnings.simplefilter("ignore")
         try:
